@@ -54,7 +54,16 @@ def _apply(ref, pos, data):
     return ref[0:pos] + data + ref[pos + n:]
 
 
+def _script_overlap(sx):
+    """one message, three changes whose positions come from a tiny window (repeats and overlaps of the
+    2-byte words are then common), values symbolic"""
+    base = 300
+    return [("msg", [(base + sx.choice(f"p{i}", 3), sx.bytes_(f"v{i}", 2)) for i in range(3)])]
+
+
 def _script(sx, nmsg, one_byte):
+    if nmsg == "overlap":
+        return _script_overlap(sx)
     """[(kind, ...)]: refreshes and messages with symbolic contents."""
     ops = []
     for k in range(nmsg):
@@ -178,5 +187,7 @@ def units(tier):
         for c0 in range(4):
             yield Unit(f"threaded.{m}msgs.refresh{r0}.count{c0}", threaded_client(m), max_paths=200000,
                        fresh_checks=True, presets={"refresh0": r0, "count0": c0})
+    yield Unit("async.overlapping-changes", async_client("overlap"), fresh_checks=True)
+    yield Unit("threaded.overlapping-changes", threaded_client("overlap"), fresh_checks=True)
     yield Unit("async.one-byte-change", async_client(1, True), fresh_checks=True)
     yield Unit("threaded.one-byte-change", threaded_client(1, True), fresh_checks=True)
